@@ -16,6 +16,14 @@ Fixpoint lookup (b : nat) (l : list (nat * dcode)) : option dcode :=
 Fixpoint remove_tok (b : nat) (l : list (nat * dcode)) : list (nat * dcode) :=
   match l with [] => [] | (k, v) :: r => if Nat.eqb k b then r else (k, v) :: remove_tok b r end.
 
+(* contextvars.ContextVar within one execution context: set returns a token remembering the previous value, reset(token) puts that value
+   back and uses the token up, get reads the current value.  (These three definitions are the assumed meaning of the library calls the
+   translated context manager makes - Gen/GenCtx.v.) *)
+Definition cv_set (c : cstate) (b : nat) (d : dcode) : cstate := mkC d ((b, cur c) :: saved c).
+Definition cv_reset (c : cstate) (b : nat) : option cstate :=
+  match lookup b (saved c) with Some v => Some (mkC v (remove_tok b (saved c))) | None => None end.
+Definition cv_get (c : cstate) : dcode := cur c.
+
 (* one event; the observation is the value of get_current_dependency() right after it (None: token misuse, RuntimeError) *)
 Definition step1 (c : cstate) (e : ev) : cstate * option dcode :=
   match e with
